@@ -765,6 +765,7 @@ func (l *undirectedMultiplexLocalMover) deltaQ(n graph.Node) (deltaQ float64, ds
 		c := l.communities[i]
 		var removal bool
 		var _dQadd float64
+		first := true
 		for layer := 0; layer < l.g.Depth(); layer++ {
 			m2 := l.m2[layer]
 			if m2 == 0 {
@@ -785,8 +786,9 @@ func (l *undirectedMultiplexLocalMover) deltaQ(n graph.Node) (deltaQ float64, ds
 			for j, u := range c {
 				uid := u.ID()
 				if uid == id {
-					// Only mark and check src community on the first layer.
-					if layer == 0 {
+					// Only mark and check src community on the first
+					// layer that is considered.
+					if first {
 						if src.community != -1 {
 							panic("community: multiple sources")
 						}
@@ -804,6 +806,8 @@ func (l *undirectedMultiplexLocalMover) deltaQ(n graph.Node) (deltaQ float64, ds
 				// increase in code complexity and space required.
 				sigma_totC += l.edgeWeightOf[layer][uid]
 			}
+
+			first = false
 
 			a_aa := l.weight[layer](id, id)
 			k_a := l.edgeWeightOf[layer][id]
